@@ -406,4 +406,14 @@ def _cromer(ctx, F, R="R4"):
         I2.call(I2.getattr(I2.getattr(w2.atoms[kind], "xray"), "f0"), [Q], {})
         got = [(a_, int(b_)) for a_, b_ in seen]
         ctx.check(got == [want], R, f"{kind}.xray.f0 asks for symbol {want[0]} with charge {want[1]}", f"asked {got}", fsite(ctx, "xsf.Xray.f0"))
-    ctx.floor(R, 26)
+    # an ion without a record is not served the neutral atom's (or any other) record: the lookup error reaches the caller
+    asked = []
+
+    def missing_record(I_, a_, k_):
+        asked.append((k_.get("symbol", a_[0] if a_ else None), k_.get("charge")))
+        raise SymRaise("KeyError", "no such record")
+    I2.stubs["cromermann.fxrayatq"] = missing_record
+    rr_ = raises(lambda: I2.call(I2.getattr(I2.getattr(w2.atoms["ion_element"], "xray"), "f0"), [Q], {}))
+    ctx.check(rr_ is not None and len(asked) == 1, R, "an ion whose (symbol, charge) has no record: f0 raises and asks for no other record",
+              f"f0 returned a value after asking for {asked}" if rr_ is None else f"asked for {asked}", fsite(ctx, "xsf.Xray.f0"))
+    ctx.floor(R, 27)
